@@ -6,14 +6,17 @@ root = os.path.join(os.path.dirname(os.path.abspath(__file__)), '..', 'seeded')
 fired = {}
 for path in sys.argv[1:]:
     for line in open(path, errors='replace'):
-        m = re.match(r'^(C\d\d-[AB]): FIRED:(.*?) \| silent:(.*)$', line.strip())
+        m = re.match(r'^(C\d\d-[A-D]): FIRED:(.*?) \| silent:(.*)$', line.strip())
         if m:
             ids = []
             for pid in re.findall(r'C\d\d', m.group(2)):
                 if pid not in ids:
                     ids.append(pid)
-            sig = re.findall(r'(C\d\d)\(signature=([^)]*)', m.group(2))
-            fired[m.group(1)] = (ids, dict(sig))
+            sig = dict(re.findall(r'(C\d\d)\(signature=([^)]*)', m.group(2)))
+            old = fired.get(m.group(1), ([], {}))
+            merged = list(old[0]) + [x for x in ids if x not in old[0]]
+            osig = dict(old[1]); osig.update(sig)
+            fired[m.group(1)] = (sorted(merged), osig)
 for d in sorted(glob.glob(os.path.join(root, 'C*-*'))):
     name = os.path.basename(d)
     prop = name[:3]
